@@ -30,6 +30,17 @@ pub fn plan(tier: &str, seed: u64) -> Vec<Batch> {
     for uni in [UniCfg::k(), UniCfg::e()] {
         v.push(Batch { check: "C09".into(), phase: "ofd".into(), uni, seed, lo: 0, hi: ofd_cases().len() as u64, fresh: false, tier: tier.into(), extra: Value::Null });
     }
+    // a crafted directory (same-named links to a foreign file) or another process's fd directory
+    // mounted on the caller thread's own fd directory (/proc/<pid>/task/<tid>/fd), before the reopen
+    // and at every window of it (the kernel refuses mounts on the fd/<n> magic-links themselves)
+    for uni in unis.iter() {
+        let n = fd_mount_cases().len() as u64;
+        let mut lo = 0;
+        while lo < n {
+            v.push(Batch { check: "C09".into(), phase: "fd-mount".into(), uni: uni.clone(), seed, lo: lo * FDM_W, hi: (lo + 4).min(n) * FDM_W, fresh: false, tier: tier.into(), extra: Value::Null });
+            lo += 4;
+        }
+    }
     // callers with a private descriptor table (unshare(CLONE_FILES)): one universe each,
     // never reused (the caller thread keeps its private table)
     for uni in unis.iter() {
@@ -61,6 +72,119 @@ pub fn ofd_cases() -> Vec<(&'static str, i32, i32, bool)> {
         }
     }
     v
+}
+
+/// fd-mount phase: (target, renumber to, flags, C facade, mounted directory)
+pub const FDM_W: u64 = 64;
+pub fn fd_mount_cases() -> Vec<(&'static str, i32, i32, bool, &'static str)> {
+    let mut v = Vec::new();
+    for (t, fl) in [("dir/file", libc::O_RDONLY), ("dir/file", libc::O_RDWR), ("dir/file", libc::O_PATH), ("dir/sub", libc::O_RDONLY | libc::O_DIRECTORY), ("dir/sub", libc::O_PATH)] {
+        for (newfd, c, src) in [(-1, false, "/mnt/w/outside/fakefd"), (63, true, "/mnt/w/outside/fakefd"), (63, false, "/proc/1/fd"), (-1, true, "/proc/1/fd"), (63, false, "/mnt/w/outside/fakefd")] {
+            v.push((t, newfd, fl, c, src));
+        }
+    }
+    v
+}
+
+const FD_DIR: &str = "/proc/self/task/@W0/fd";
+
+/// the history world plus a directory of links named like descriptor numbers
+fn fd_mount_world() -> WorldSpec {
+    let mut w = world();
+    for n in (3..=12).chain([63]) {
+        w.push(Entry::link(&format!("outside/fakefd/{n}"), "/mnt/w/outside/secret"));
+    }
+    w
+}
+
+/// window 0 = the mount is placed before the reopen starts; window k>0 = at the k-th system call of it
+fn run_fd_mount(u: &mut Universe, b: &Batch, idx: u64, st: &mut Stats) -> bool {
+    let replay = b.phase == "replay";
+    let (ci, window) = ((idx / FDM_W) as usize, (idx % FDM_W) as usize);
+    let cases = fd_mount_cases();
+    let (target, newfd, flags, cfac, src) = cases[ci % cases.len()];
+    let facade = if cfac { Facade::C } else { Facade::Rust };
+    let mount = Mutation::MountOn { src: src.into(), dst: FD_DIR.into(), nofollow: false };
+    let mk = |statically: bool, script: Vec<crate::sup::Dec>| {
+        let mut c = Case::new("C09", "fd-mount", b.uni.clone());
+        let mut ops = vec![OpSpec::new(Op::Resolve { path: target.into(), nofollow: false }).store(1).facade(facade)];
+        let mut sup = Vec::new();
+        if newfd >= 0 {
+            sup.push(Mutation::Dup3Slot { slot: 1, newfd });
+        }
+        if statically {
+            sup.push(mount.clone());
+        }
+        if !sup.is_empty() {
+            ops.push(OpSpec::new(Op::Sup { muts: sup }));
+        }
+        ops.push(OpSpec::new(Op::Reopen { slot: 1, flags }).facade(facade));
+        ops.push(OpSpec::new(Op::Sup { muts: vec![Mutation::Umount { path: FD_DIR.into() }] }));
+        c.world = Some(fd_mount_world());
+        c.jobs = vec![ops];
+        c.plan.script = script;
+        c.extra = json!({"target": target, "symlink_handle": false, "flags": flags, "newfd": newfd, "history": false, "overmount": true, "attacker_inside_reopen": !statically});
+        c
+    };
+    let case = if replay {
+        match Case::from_json(&b.extra["case"]) {
+            Some(c) => c,
+            None => return false,
+        }
+    } else if window == 0 {
+        mk(true, vec![])
+    } else {
+        // windows of the reopen in a run without the mount
+        let probe = mk(false, vec![]);
+        let ridx = probe.jobs[0].iter().position(|o| matches!(o.op, Op::Reopen { .. })).unwrap_or(usize::MAX);
+        let mut h0 = H { handle: None, handle_fl: 0, target: target.into(), seq: 0, reopen_idx: usize::MAX };
+        let out0 = run_case(u, &probe, &mut h0, false);
+        if out0.harness_error.is_some() || u.poisoned {
+            return !u.poisoned;
+        }
+        let wins: Vec<usize> = out0.trace.iter().filter(|e| e.lib && e.op == Some(ridx) && e.nr != crate::seam::HYPERCALL_NR && e.nr != libc::SYS_futex).map(|e| e.step).collect();
+        if window == 1 {
+            st.count("fd_mount.windows_total", wins.len() as u64);
+        }
+        match wins.get(window - 1) {
+            Some(w) => mk(false, vec![crate::sup::Dec { step: *w, attack: vec![mount.clone()], ..Default::default() }]),
+            None => return true,
+        }
+    };
+    let base_mounts = super::c06::mount_ids();
+    let base_case = baseline_of(&case);
+    let mut hb = H { handle: None, handle_fl: 0, target: target.into(), seq: 0, reopen_idx: usize::MAX };
+    let outb = run_case(u, &base_case, &mut hb, false);
+    if outb.harness_error.is_some() || u.poisoned {
+        return !u.poisoned;
+    }
+    let base = outb.records.iter().find(|r| matches!(r.spec.op, Op::Reopen { .. })).map(|r| r.outcome.clone());
+    let mut h = H { handle: None, handle_fl: 0, target: target.into(), seq: 0, reopen_idx: usize::MAX };
+    let out = run_case(u, &case, &mut h, false);
+    if super::c06::mount_ids() != base_mounts {
+        u.poisoned = true;
+        st.count("fd_mount.universe_abandoned", 1);
+    }
+    if let Some(e) = &out.harness_error {
+        st.harness_errors.push(format!("fd-mount {idx}: {e}"));
+        return false;
+    }
+    st.evaluations += 1;
+    st.merge_runout(&out);
+    st.count("fd_mount.runs", 1);
+    let placed = out.attacks_applied.get("mount_bind_on").copied().unwrap_or(0) > 0;
+    if placed {
+        st.count("fd_mount.mount_took_effect", 1);
+        st.nontrivial.insert(case.hash());
+    }
+    if let Some(r) = out.records.iter().find(|r| matches!(r.spec.op, Op::Reopen { .. })) {
+        st.count(&format!("fd_mount.outcome.{}", r.outcome.class().split(':').take(3).collect::<Vec<_>>().join(":")), 1);
+    }
+    for (clause, detail) in judge(&case, &out, &h, base.as_ref()) {
+        let v = mk_violation(&case, &out, "C09", &refine(&clause, &case), "reopen", detail);
+        st.violation(&v);
+    }
+    !u.poisoned
 }
 
 struct Ofd {
@@ -527,6 +651,12 @@ pub fn run(u: &mut Universe, b: &Batch, st: &mut Stats) {
             }
             continue;
         }
+        if b.phase == "fd-mount" || (b.phase == "replay" && b.extra["case"]["phase"].as_str() == Some("fd-mount")) {
+            if !run_fd_mount(u, b, idx, st) {
+                return;
+            }
+            continue;
+        }
         if b.phase == "private-table" || replay_private {
             if !run_private(u, b, idx, st) {
                 return;
@@ -604,7 +734,7 @@ pub fn finalise(tier: &str, seed: u64, res: coord::CheckResult) -> i32 {
         tier,
         seed,
         "exploration",
-        "one evaluation = one history: resolve a handle (file, directory, fifo, symlink handle, character device) -> attacker operations on the handle's path (rename, replace by a same-named file/dir/symlink, unlink, rename an ancestor; 0-3 of them) -> renumber the handle's descriptor (0, 1, 2, 3, 5, 63, 150, 199 or unchanged) -> optionally mount tmpfs / a foreign directory over /proc, /proc/self, /proc/self/fd, /proc/thread-self -> reopen with a flag set from the power set of {access modes, O_APPEND, O_DIRECTORY, O_NOFOLLOW, O_CLOEXEC, O_TRUNC, O_NOATIME, O_CREAT, O_EXCL, O_TMPFILE, O_NOCTTY}; compared with the baseline (same handle type and flags, nothing in between); universes: K and E with private procfs, and with fsopen refused / the whole new mount API refused (non-private handles); ofd phase: a descriptor that is itself the result of a reopen is reopened again with the same or other flags (Rust/C): the result has its own file offset; private-table phase: the whole scenario runs in a caller thread with a private descriptor table (unshare(CLONE_FILES)) that opens the target itself, has the supervisor plant a decoy at the same descriptor number in the thread-group leader's table (or leave that number empty there), reopens through libpathrs (4 targets x flag sets x Rust/C, 60 cases per universe kind) and compares inodes itself: the answer must come from the calling thread's table; for the cases with a decoy every (system call of the reopen, errno of its catalogue) placement is enumerated as well (the call may fail, it never returns another inode); non-trivial = a history with at least one attacker / renumbering / mount step; distinct = hash of the case",
+        "one evaluation = one history: resolve a handle (file, directory, fifo, symlink handle, character device) -> attacker operations on the handle's path (rename, replace by a same-named file/dir/symlink, unlink, rename an ancestor; 0-3 of them) -> renumber the handle's descriptor (0, 1, 2, 3, 5, 63, 150, 199 or unchanged) -> optionally mount tmpfs / a foreign directory over /proc, /proc/self, /proc/self/fd, /proc/thread-self -> reopen with a flag set from the power set of {access modes, O_APPEND, O_DIRECTORY, O_NOFOLLOW, O_CLOEXEC, O_TRUNC, O_NOATIME, O_CREAT, O_EXCL, O_TMPFILE, O_NOCTTY}; compared with the baseline (same handle type and flags, nothing in between); universes: K and E with private procfs, and with fsopen refused / the whole new mount API refused (non-private handles); fd-mount phase: a crafted directory whose entries are links named like descriptor numbers (all leading to a foreign file), or another process's fd directory, bind-mounted on the caller thread's own /proc/<pid>/task/<tid>/fd (the kernel refuses mounts on the fd/<n> magic-links themselves), before the reopen starts and at every system-call window of it (25 cases x 6 universes): with a private procfs the result is the baseline's, otherwise the call fails or returns the handle's inode, never the file the planted link leads to; ofd phase: a descriptor that is itself the result of a reopen is reopened again with the same or other flags (Rust/C): the result has its own file offset; private-table phase: the whole scenario runs in a caller thread with a private descriptor table (unshare(CLONE_FILES)) that opens the target itself, has the supervisor plant a decoy at the same descriptor number in the thread-group leader's table (or leave that number empty there), reopens through libpathrs (4 targets x flag sets x Rust/C, 60 cases per universe kind) and compares inodes itself: the answer must come from the calling thread's table; for the cases with a decoy every (system call of the reopen, errno of its catalogue) placement is enumerated as well (the call may fail, it never returns another inode); non-trivial = a history with at least one attacker / renumbering / mount step; distinct = hash of the case",
         res,
         Map::new(),
         vec![
@@ -612,7 +742,7 @@ pub fn finalise(tier: &str, seed: u64, res: coord::CheckResult) -> i32 {
             "'new open file description' is checked through differing F_GETFL (kcmp is not available in this kernel)".into(),
         ],
         false,
-        &|b, run| if b.phase == "private-table" || b.phase == "ofd" { None } else { Some(gen_case(b.seed, run, &b.uni)) },
+        &|b, run| if b.phase == "private-table" || b.phase == "ofd" || b.phase == "fd-mount" { None } else { Some(gen_case(b.seed, run, &b.uni)) },
     )
     .exit_code
 }
